@@ -176,7 +176,12 @@ def call(app, method, path_info, *, headers=None, body=b"", content_type="applic
 
     def send_dav(responses, enc):
         if isinstance(responses, Wd.Status):
-            # a single DAV status (e.g. _send_simple_dav_error): the HTTP status is the Status' own
+            # a single DAV status (e.g. _send_simple_dav_error): as the real _send_dav_responses decides it - the
+            # HTTP status is the Status' own unless Status.get_single_body asks for a 207 Multi-Status wrapper
+            try:
+                responses.get_single_body(enc)
+            except Wd.NeedsMultiStatus:
+                return _Raw("multistatus", [responses])
             return _Raw("single", responses)
         return _Raw("multistatus", list(responses))
 
